@@ -39,6 +39,7 @@ func c12Judge(w *fw.W, c *c12Case) bool {
 		w.Count("ambiguous_skipped", 1)
 		w.Cover("ambiguous_reasons", exp.Ambiguous)
 		w.Count("ambiguous: "+exp.Ambiguous, 1)
+		unjudgedRun(w, waf, c, c.Req)
 		return true
 	}
 	opts := sl.CompareOpts{Evaluated: true, TX: true}
